@@ -732,16 +732,12 @@ Definition skip_ok (g : gv) : Prop := val_stable g /\ match g with GTime j => j 
 Lemma is_empty_reread : forall g, skip_ok g -> is_empty_any g = false ->
   is_empty_any (gv_of_json (gv_json g)) = false.
 Proof.
-  intros g [S T] H. destruct g; cbn [gv_json]; try exact H.
-  - rewrite gv_of_json_int. exact H.
-  - unfold val_stable in S. cbn [gv_json json_stable] in S.
-    destruct (num_stable_cases _ S) as [(z & E & Z)|E]; rewrite E; cbn [is_empty_any] in *.
-    + destruct (Z.eqb_spec z 0) as [Ez|]; [|reflexivity]. subst z.
-      change (z_to_string 0) with "0" in Z. subst jtok. discriminate H.
-    + exact H.
-  - cbn [gv_of_json is_empty_any]. destruct (String.eqb_spec jtok ""); [contradiction|reflexivity].
-  - cbn [is_empty_any] in *. destruct l; [discriminate H|reflexivity].
-  - reflexivity.
+  intros g [S T] H. destruct g; cbn [gv_json]; try exact H;
+    try (rewrite gv_of_json_int; reflexivity);
+    try (cbn [gv_of_json]; destruct l; reflexivity);
+    try (cbn [gv_of_json is_empty_any]; destruct (String.eqb_spec jtok ""); reflexivity).
+  unfold val_stable in S. cbn [gv_json json_stable] in S.
+  destruct (num_stable_cases _ S) as [(z & E & Z)|E]; rewrite E; reflexivity.
 Qed.
 
 Definition adj_schema : list string := ["with"; "skip"].
